@@ -12,6 +12,7 @@ The loop (`SimLoop`) is a real asyncio selector loop whose clock is `Sim.now`
 and whose `_run_once` never blocks: when nothing is runnable the clock jumps to
 the next timer or environment event (discrete-event time).
 """
+from time import thread_time as _perf   # CPU time: immune to descheduling
 import asyncio
 import heapq
 import random
@@ -76,6 +77,7 @@ class Sim(object):
         self._firing = False
         self.in_step = False
         self.step_blocked = 0.0    # virtual time slept inside current step
+        self.step_cpu = 0.0        # CPU seconds the last loop step computed
         self.step_sleeps = 0
         self.max_step_blocked = 0.0
         self.blocked_total = 0.0   # all virtual time spent in time.sleep()
@@ -347,7 +349,9 @@ class SimLoop(asyncio.SelectorEventLoop):
             if handle._cancelled:
                 continue
             sim.before_step()
+            t0 = _perf()
             handle._run()
+            sim.step_cpu = _perf() - t0
             sim.after_step()
             if self.after_step_hook is not None:
                 self.after_step_hook()
